@@ -30,6 +30,28 @@ pub struct Declared(pub u32);
 impl HeapSize for Declared { fn heap_size(&self) -> usize { self.0 as usize } }
 impl Spec for Declared { fn spec_heap(&self) -> u128 { self.0 as u128 } }
 
+/// A user-defined leaf whose bulk helpers are overridden in a legal but unusual way: they first pull items with
+/// `next()` / `skip_while` and only then fold the rest. The result is always the element-wise sum.
+pub struct Picky(pub u32);
+impl HeapSize for Picky {
+    fn heap_size(&self) -> usize { self.0 as usize }
+    fn heap_size_sum_iter<'item, Fun, Iter>(make_iter: Fun) -> usize
+    where Self: 'item, Fun: Fn() -> Iter, Iter: Iterator<Item = &'item Self> {
+        let mut it = make_iter().skip_while(|p| p.0 == 0);
+        let first = it.next().map(|p| p.0 as usize).unwrap_or(0);
+        first + it.map(|p| p.0 as usize).sum::<usize>()
+    }
+    fn heap_size_sum_exact_size_iter<'item, Fun, Iter>(make_iter: Fun) -> usize
+    where Self: 'item, Fun: Fn() -> Iter, Iter: ExactSizeIterator<Item = &'item Self> {
+        let mut it = make_iter();
+        let n = it.len();
+        let first = it.next().map(|p| p.0 as usize).unwrap_or(0);
+        let second = if n > 4 { it.next().map(|p| p.0 as usize).unwrap_or(0) } else { 0 };
+        first + second + it.fold(0usize, |a, p| a + p.0 as usize)
+    }
+}
+impl Spec for Picky { fn spec_heap(&self) -> u128 { self.0 as u128 } }
+
 macro_rules! leaf { ($($t:ty),*) => { $( impl Spec for $t { fn spec_heap(&self) -> u128 { 0 } } )* } }
 leaf!((), u8, u16, u32, u64, u128, usize, i8, i16, i32, i64, f32, f64, bool, char, str, CStr, Path, std::ffi::OsStr,
       std::time::Duration, std::cmp::Ordering, std::net::Ipv4Addr, std::num::NonZeroU32, std::ops::RangeFull, std::collections::hash_map::RandomState);
